@@ -27,6 +27,9 @@ def populate(shape, variant):
     g["ns"] = [["p", "urn:u1"]]
     if variant == 1 and len(nodes) > 1:
         nodes[-1]["ns"] = [["p", "urn:u2"], ["q", "urn:u3"]]       # re-declared lower down
+    if variant in (3, 4) and len(nodes) > 1:
+        g["ns"] = [["p", "urn:u1"], ["q", "urn:u3"]]
+        g["post"] = [["remove_namespace", 1, "q"]] if variant == 3 else [["set_nsmap_single", 1, {"r": "urn:r"}]]
     if variant == 2:
         for n in nodes:
             n["attrs"] = []
@@ -36,6 +39,19 @@ def populate(shape, variant):
             n["prefix"] = None
         g["ns"] = []
     return g
+
+
+def build(g):
+    """gtree.build + optional post-build namespace operations that leave a child WITHOUT some prefix of its parent
+    (remove_namespace on a subtree, set_nsmap on a single node): 'all trees' includes these"""
+    t = gtree.build(g)
+    nodes = gtree.preorder(t)
+    for op in g.get("post", []):
+        if op[0] == "remove_namespace":
+            nodes[op[1]].remove_namespace(op[2])
+        elif op[0] == "set_nsmap_single":
+            nodes[op[1]].set_nsmap(dict(op[2]), False)
+    return t
 
 
 def node_at(root, path):
@@ -48,7 +64,7 @@ def check_copy(g, cpath, acc):
     n_checks = 0
     case0 = {"tree": g, "copied": list(cpath)}
     core.reset_store()
-    T = gtree.build(g)
+    T = build(g)
     N = node_at(T, cpath)
     orig_ids = [x.id for x in gtree.preorder(T)]
     before = gtree.snap(T)
@@ -92,14 +108,14 @@ def check_copy(g, cpath, acc):
     for side, paths in (("copy", copy_paths), ("original", tree_paths)):
         for p in paths:
             core.reset_store()
-            T0 = gtree.build(g)
+            T0 = build(g)
             # labels depend on the node's state, compute on a fresh build
             C0 = node_at(T0, cpath).copy()
             tnode = node_at(C0 if side == "copy" else T0, p)
             labels = edits.labels(tnode)
             for lab in labels:
                 core.reset_store()
-                T1 = gtree.build(g)
+                T1 = build(g)
                 C1 = node_at(T1, cpath).copy()
                 other = T1 if side == "copy" else C1
                 snap_other = gtree.snap(other)
@@ -139,7 +155,9 @@ def explore(tier):
     maxn = 5 if tier == "quick" else 7
     items = []
     for s in gtree.shapes_upto(maxn):
-        for variant in (0, 1, 2):
+        for variant in (0, 1, 2, 3, 4):
+            if variant >= 3 and gtree.gsize(s) < 2:
+                continue
             g = populate(s, variant)
             for path, _ in gtree.walk(g):
                 items.append((g, path))
